@@ -15,7 +15,7 @@ ASSUMPTIONS = ["field types are drawn from a pool of ~55 leaf types plus referen
 
 def generate(tier, rng):
     w = dg.get_world(tier, rng)
-    return dg.denc_cases(w, rng, tier) + dg.dmeta_cases(w, rng, tier)
+    return dg.denc_cases(w, rng, tier) + dg.dmeta_cases(w, rng, tier) + dg.neg_cases()
 
 def nontrivial(line, impl): return len(impl.split(";")[0]) > 4
 def classify(line, impl):
